@@ -13,7 +13,8 @@ static const std::vector<std::string> TAGS = {"load_ok", "load_rejected", "forma
 static std::vector<uint8_t> g_bank;
 typedef gm::Bytes Bytes;
 
-static uint64_t heap_budget(size_t n) { return (16ull << 20) + 4096ull * n + (8ull << 20) /* instance itself */; }
+// 16 MiB slack + 8 MiB for the instance + 16 KiB per input byte: the steepest legitimate growth is a device-switch meta event (FF 09, 5 bytes) that adds 16 MIDI channels of about 24 KiB each
+static uint64_t heap_budget(size_t n) { return (16ull << 20) + 16384ull * n + (8ull << 20); }
 
 // follow-up alphabet
 enum FU { FU_PLAY64, FU_PLAY4096, FU_TICK, FU_SEEK0, FU_SEEKMID, FU_SEEKEND, FU_SEEKPAST, FU_REWIND, FU_SONG_M1, FU_SONG0, FU_SONG1, FU_SONG99, FU_TELLS, FU_META, FU_LOOP_ON, FU_TRACKOPT, FU_CHANOFF, FU_ATEND, FU_PLAYLONG, FU_COUNT };
@@ -59,7 +60,7 @@ static const int CANON[] = {FU_TELLS, FU_META, FU_ATEND, FU_PLAY64, FU_TICK, FU_
 struct Loaded { pl::Instance I; bool ok = false; };
 
 static bool load(Loaded &L, const Bytes &b, en::CaseOut &o, int presel_song = -2) {
-    L.I.create(44100);
+    L.I.create(44100); L.I.tap.logging = false;   // the harness's own register log must not count against the heap budget
     OPN2_MIDIPlayer *d = L.I.dev;
     opn2_setNumChips(d, 1);
     opn2_openBankData(d, g_bank.data(), (long)g_bank.size());
@@ -219,6 +220,28 @@ int main(int argc, char **argv) {
         if(i % 37 == 0) o.sample = g_seeds[a].first + (played ? " played, then " : ", then ") + g_seeds[b2].first + (cut == 1 ? " cut at 60 %" : cut == 2 ? " minus 2 bytes" : "");
         int rc = opn2_openData(d, b.data(), (unsigned long)b.size()); if(rc != 0 && rc != -1) o.fail("C01/undefined-return", "second opn2_openData returned " + std::to_string(rc));
         uint64_t tags = 0; for(int f : CANON) followup(d, f, tags); o.tags |= tags; };
+      fams.push_back(F); }
+    { // loop markers of both kinds (global loopStart/loopEnd, stacked loopstart=N/loopend=N) on two tracks, played with looping enabled before the file is loaded
+      static const char *LM[] = {"loopStart", "loopEnd", "loopstart=1", "loopstart=0", "loopend=1", "loopend="}; static const uint32_t LD[] = {0, 100}; const uint64_t SYM = 6 * 2 + 2;   // + note-on / note-off (delta 100)
+      static uint64_t per; per = 1 + SYM + SYM * SYM; 
+      en::Family F; F.name = "loop_marker_rows"; F.count = per * per * 2; F.chunk = 16; F.budget_s = 60; F.describe = "format-1 files with 2 tracks of up to 2 items each over {loopStart, loopEnd, loopstart=1, loopstart=0, loopend=1, loopend=} x delta {0,100} + note on/off, all " + std::to_string(per * per) + " combinations x looping {enabled before loading with count 2, enabled before loading endless}; 8 s of opn2_play, seeks, rewind, then the canonical follow-ups";
+      F.run = [SYM](uint64_t i, en::CaseOut &o) { uint64_t r = i; std::vector<Bytes> tr; std::string desc;
+        for(int k = 0; k < 2; k++) { uint64_t x = r % per; r /= per; std::vector<uint64_t> it; if(x >= 1 + SYM) { x -= 1 + SYM; it = {x % SYM, x / SYM}; } else if(x >= 1) it = {x - 1};
+            gm::Track t; desc += " | T" + std::to_string(k) + ":"; for(uint64_t y : it) { if(y < 12) { t.meta(LD[y % 2], 0x06, LM[y / 2]); desc += std::string(" +") + std::to_string(LD[y % 2]) + " " + LM[y / 2]; } else if(y == 12) { t.ev(100, {(uint8_t)(0x90 | k), 60, 100}); desc += " +100 on"; } else { t.ev(100, {(uint8_t)(0x80 | k), 60, 0}); desc += " +100 off"; } }
+            t.eot(0); tr.push_back(t.d); }
+        int mode = (int)(r % 2); Bytes b = gm::smf(1, 96, tr); o.input_hex = vu::hex(b.data(), std::min<size_t>(b.size(), 400)); if(i % 4099 == 1) o.sample = desc + (mode ? " (endless)" : " (count 2)");
+        Loaded L; L.I.create(44100); L.I.tap.logging = false; OPN2_MIDIPlayer *d = L.I.dev; opn2_setNumChips(d, 1); opn2_openBankData(d, g_bank.data(), (long)g_bank.size()); opn2_setLoopEnabled(d, 1); opn2_setLoopCount(d, mode ? -1 : 2); mt::reset();
+        int rc = opn2_openData(d, b.data(), (unsigned long)b.size()); if(rc == 0) { o.tags |= 1ull << T_LOADED; o.nontrivial = true; } else o.tags |= 1ull << T_REJECTED;
+        static short buf[88200]; uint64_t tags = 0; for(int k = 0; k < 4; k++) opn2_play(d, 88200, buf); followup(d, FU_SEEKMID, tags); opn2_play(d, 88200, buf); followup(d, FU_REWIND, tags); opn2_play(d, 44100, buf);
+        for(int f : CANON) followup(d, f, tags); o.tags |= tags; check_heap(b.size(), o, "playback"); };
+      fams.push_back(F); }
+    { // many MIDI output devices: every new FF 09 device name adds 16 MIDI channels to the synthesizer
+      static const int NN[] = {1, 2, 3, 8, 15, 16, 17, 18, 31, 32, 33, 64, 100};
+      en::Family F; F.name = "device_names"; F.count = 13 * 3; F.chunk = 1; F.budget_s = 60; F.describe = "SMF with k distinct device-switch names (FF 09), k in {1,2,3,8,15,16,17,18,31,32,33,64,100}, each followed by a note on that device; x {one track, one track per device, names repeated twice}; canonical follow-ups (play, seeks, rewind, panic via song switching)";
+      F.run = [](uint64_t i, en::CaseOut &o) { int k = NN[i % 13], mode = (int)(i / 13); std::vector<Bytes> tr; gm::Track t;
+        for(int rep = 0; rep < (mode == 2 ? 2 : 1); rep++) for(int n = 0; n < k; n++) { char nm[16]; snprintf(nm, sizeof nm, "dev%d", n); t.meta(rep || n ? 5 : 0, 0x09, nm); t.ev(0, {0x90, (uint8_t)(40 + n % 40), 100}); t.ev(5, {0x80, (uint8_t)(40 + n % 40), 0}); if(mode == 1) { t.eot(0); tr.push_back(t.d); t = gm::Track(); } }
+        if(mode != 1) { t.eot(0); tr.push_back(t.d); }
+        Bytes b = gm::smf(mode == 1 ? 1 : 0, 96, tr); o.sample = std::to_string(k) + " device name(s), " + (mode == 0 ? "one track" : mode == 1 ? "one track per device" : "each name twice"); run_case(b, o); uint64_t tg = 0; (void)tg; };
       fams.push_back(F); }
     { en::Family F; F.name = "followups_depth2"; F.count = (uint64_t)g_seeds.size() * FU_COUNT * FU_COUNT * 4; F.chunk = 16; F.budget_s = 60; F.describe = "every ordered pair of follow-up calls (19 x 19) on every freshly loaded seed, with song pre-selection {none, -1, 1, 99} before loading";
       F.run = [](uint64_t i, en::CaseOut &o) { size_t s = (size_t)(i % g_seeds.size()); int f1 = (int)((i / g_seeds.size()) % FU_COUNT), f2 = (int)((i / g_seeds.size() / FU_COUNT) % FU_COUNT); int ps = (int)(i / g_seeds.size() / FU_COUNT / FU_COUNT);
